@@ -29,10 +29,15 @@ Definition NOTE : N := 777777.                      (* the log text argument of 
 Record keyspec := mkKS { ks_opriv : option N; ks_opub : option N; ks_rpriv : option N; ks_rpub : option N }.
 Definition key_of (k : keyspec) : option key :=
   make_key toy_pub toy_dh (ks_opriv k) (option_map toy_pub (ks_opub k)) (ks_rpriv k) (option_map toy_pub (ks_rpub k)).
-Record ringspec := mkRS { rs_default : option keyspec; rs_keys : list (string * keyspec) }.
+Record ringspec := mkRS {
+  rs_default : option keyspec; rs_keys : list (string * keyspec);      (* the ring as first populated *)
+  rs_sets : list (string * option keyspec)                              (* later set_key(uri, key | None) calls, in order *)
+}.
 Definition ring_of (r : ringspec) : keyring :=
-  fold_left (fun acc '(u, ks) => set_key acc u (key_of ks)) (rs_keys r)
-            (set_key empty_ring "" (match rs_default r with Some ks => key_of ks | None => None end)).
+  apply_sets
+    (fold_left (fun acc '(u, ks) => set_key acc u (key_of ks)) (rs_keys r)
+               (set_key empty_ring "" (match rs_default r with Some ks => key_of ks | None => None end)))
+    (map (fun '(u, ks) => (u, match ks with Some k => key_of k | None => None end)) (rs_sets r)).
 Definition codec_of (r : option ringspec) : option keyring := option_map ring_of r.
 
 (* ---- what the "router" (or an attacker on the path) does to a payload-carrying message ---- *)
